@@ -5,6 +5,7 @@ import (
 	"fmt"
 	"math/rand"
 	"strings"
+	"unicode/utf8"
 
 	"github.com/emersion/go-webdav/verifharness/xmltree"
 )
@@ -28,6 +29,12 @@ type Body struct {
 	// certainly violates the named grammar rule (exclusive elements, date,
 	// enumeration, limit).
 	Sem string `json:"sem,omitempty"`
+	// Quest != "" : the body is a well-formed document of family Doc that
+	// breaks a MUST of the RFC which the statement's list of malformations
+	// does not name (a range whose end is not after its start). Accepting it
+	// and refusing it with a 4xx are both left open; a server error is
+	// neither.
+	Quest string `json:"quest,omitempty"`
 	// Text != "" : the body is certainly not a parseable iCalendar / vCard
 	// object (no BEGIN, no END, content line without colon, empty).
 	Text string `json:"text,omitempty"`
@@ -430,6 +437,41 @@ func boundaryMutants(sd seedDoc) []Body {
 			}
 			mk(t, "date-boundary")
 		}
+		// iCalendar text carried INSIDE the XML document (CALDAV:timezone of a
+		// calendar-query, RFC 4791 9.7 / 9.8): a valid time zone definition
+		// and objects broken in every way the text operators know. Whether a
+		// server reads that text at all is its business: not labelled.
+		if sd.Fam == "calendar-query" {
+			for _, txtBody := range embeddedTexts() {
+				t := sd.Tree.Clone()
+				t.Add(el(nsC, "timezone", txt(string(txtBody.Data))))
+				l = append(l, Body{Data: render(t, false), Doc: sd.Fam, Mut: "embedded-timezone " + txtBody.Mut, Root: rootName(t)})
+			}
+		}
+		// ranges whose end is not after their start (RFC 4791 9.6.5, 9.6.6,
+		// 9.9): in every element that carries a range, equal and inverted
+		ranged := func(n *xmltree.Node) bool {
+			return n.Is(nsC, "time-range") || n.Is(nsC, "expand") || n.Is(nsC, "limit-recurrence-set") || n.Is(nsC, "limit-freebusy-set")
+		}
+		withLimit := sd.Tree.Clone()
+		if cd := findElem(withLimit, nsC, "calendar-data"); cd != nil && cd.First(nsC, "limit-recurrence-set") == nil {
+			removeChildren(cd, nsC, "expand")
+			cd.Add(el(nsC, "limit-recurrence-set").With("start", "20240101T000000Z", "end", "20240201T000000Z"))
+		}
+		for _, base := range []*xmltree.Node{sd.Tree, withLimit} {
+			for i, n := range elems(base) {
+				if !ranged(n) {
+					continue
+				}
+				for _, se := range [][2]string{{"20240201T000000Z", "20240201T000000Z"}, {"20240201T000000Z", "20240101T000000Z"}, {"20240201T000000Z", "20240131T235959Z"}} {
+					t := base.Clone()
+					m := elems(t)[i]
+					setAttr(m, "start", se[0])
+					setAttr(m, "end", se[1])
+					l = append(l, Body{Data: render(t, false), Doc: sd.Fam, Mut: "range-not-ascending", Root: rootName(t), Quest: "range:end-not-after-start " + n.Local})
+				}
+			}
+		}
 	}
 	// other REPORT types a server may or may not know
 	if sd.Fam == "calendar-query" || sd.Fam == "addressbook-query" {
@@ -809,6 +851,33 @@ func textMutants(sd seedDoc) []Body {
 		Body{Data: []byte(strings.Replace(sd.Text, "VERSION", "VERSION"+strings.Repeat("X", 70000), 1)), Doc: fam, Mut: "long-line"},
 		Body{Data: []byte(strings.Replace(sd.Text, "\r\nEND:", "\r\nend:", -1)), Doc: fam, Mut: "end-lower"},
 	)
+	return l
+}
+
+const seedTimezoneText = "BEGIN:VCALENDAR\r\nVERSION:2.0\r\nPRODID:-//verif//c13//EN\r\nBEGIN:VTIMEZONE\r\nTZID;X-SRC=olson:Europe/Paris\r\n" +
+	"BEGIN:STANDARD\r\nDTSTART:19701025T030000\r\nTZOFFSETFROM:+0200\r\nTZOFFSETTO:+0100\r\nRRULE:FREQ=YEARLY;BYMONTH=10;BYDAY=-1SU\r\nEND:STANDARD\r\n" +
+	"END:VTIMEZONE\r\nEND:VCALENDAR\r\n"
+
+// embeddedTexts are the iCalendar texts placed inside XML elements: the valid
+// time zone object, its line-level mutants and every prefix that ends inside
+// a content line's name, parameters or value (sampled every third offset).
+func embeddedTexts() []Body {
+	sd := seedDoc{Name: "ical-timezone", Fam: "ical", Text: seedTimezoneText}
+	l := []Body{{Data: []byte(sd.Text), Mut: "valid"}, {Data: nil, Mut: "empty"}, {Data: []byte("   "), Mut: "blank"}}
+	for i, b := range textMutants(sd) {
+		switch b.Mut {
+		case "truncated", "second-object-truncated":
+			if i%3 != 0 {
+				continue
+			}
+		case "long-line":
+			continue
+		}
+		if !utf8.Valid(b.Data) || bytes.IndexByte(b.Data, 0) >= 0 {
+			continue
+		}
+		l = append(l, b)
+	}
 	return l
 }
 
